@@ -41,8 +41,8 @@ RecoverEv(e) ==
     /\ Clause("returned-synchronisations-are-durable",
               \A k \in DOMAIN returned : \E i \in DOMAIN e.rows : e.rows[i].k = k /\ e.rows[i].v = returned[k][1] /\ e.rows[i].cf = returned[k][2])
     /\ Clause("no-partially-written-individual", \A i \in DOMAIN e.rows : e.rows[i].complete)
-    /\ Clause("row-costs-match-row-vector", \A i \in DOMAIN e.rows : e.rows[i].st = "evaluated" => e.rows[i].cf = e.rows[i].v)
-    /\ Clause("unevaluated-rows-carry-no-costs", \A i \in DOMAIN e.rows : e.rows[i].st # "evaluated" => e.rows[i].cf = 0)
+    /\ Clause("row-costs-match-row-vector", \A i \in DOMAIN e.rows : e.rows[i].cf = 0 \/ e.rows[i].cf = e.rows[i].v)
+    /\ Clause("evaluated-rows-have-costs", \A i \in DOMAIN e.rows : e.rows[i].st = "evaluated" => e.rows[i].cf = e.rows[i].v)
     /\ UNCHANGED svars
 TInit == tid \in 1..Len(Traces) /\ l = 1 /\ rows = <<>> /\ live = <<>> /\ returned = <<>> /\ crashed = FALSE
 TNext == /\ l <= Len(Traces[tid])
@@ -55,6 +55,7 @@ TNext == /\ l <= Len(Traces[tid])
               [] Ev.ev = "crash"   -> CrashEv(Ev)
               [] Ev.ev = "recover" -> RecoverEv(Ev)
               [] Ev.ev \in {"created", "call", "ret", "point"} -> UNCHANGED svars
+              [] Ev.ev = "childerror" -> Clause("writer-runs-without-exception", FALSE) /\ UNCHANGED svars
               [] OTHER -> Clause("known-event", FALSE) /\ UNCHANGED svars
          /\ l' = l + 1 /\ UNCHANGED tid
 TDone == l = Len(Traces[tid]) + 1
